@@ -21,8 +21,9 @@ def run(chk):
         exh, smp = 2, {3: 250, 4: 150}
     else:
         exh, smp = 3, {4: 3000, 5: 1500, 6: 500}
-    res = machine.tlc_family(chk, "FamMap", chk.tier, defines={"EXHLEN": exh, "SAMPLE": sample(smp)}, timeout=1500)
-    cases = machine.expand(res.cases, "map", layouts=("canon",))
+    lys = ("canon",)
+    res = machine.tlc_family(chk, "FamMap", chk.tier, defines={"EXHLEN": exh, "SAMPLE": sample(smp)}, timeout=1500, layouts=lys)
+    cases = machine.expand(res.cases, "map", layouts=lys)
     chk.rule = ("histories of map operations (23 operations: insert/overwrite via . and [], del, lookup, and seven loops "
                 "that mutate the map they iterate over, through the map m and its alias n) from three initial maps; "
                 "all histories up to length %d plus a seed-chosen sample of lengths %s; after every operation the map, len "
